@@ -189,6 +189,9 @@ def gen_cases(ctx, quick):
     add(3, 65411, 125, [3, 250] + list(range(250)), 'R', 1)
     add(6, 3, 513, [6, 0, 3, 2, 1], 'R', 7)
     add(1, 0, 1, [], 'T', 1)
+    for k in (1, 2, 3, 4):                       # the largest replies, also ending at address 65535 (logging walks, decode-max pass)
+        for s0 in (0, 65536 - LIMIT[k], r.randrange(0, 65536 - LIMIT[k])):
+            add(k, s0, LIMIT[k], genuine(r, k, s0, LIMIT[k]), 'T', 1)
     # F10: struct literals that were never validated, with the replies that used to be accepted / to panic
     add(1, 0, 0, [1, 0], 'T', 1, 1)
     add(1, 65535, 10, [1, 2, 0xFF, 0x03], 'T', 1, 1)
@@ -235,7 +238,7 @@ def gen_cases(ctx, quick):
                 for m in ms:
                     add(k, s, n, m)
     # random PDUs of length 0..253 (function byte biased towards the interesting ones)
-    for _ in range(1500 if quick else 30000):
+    for _ in range(1000 if quick else 30000):
         k = r.choice(list(KIND_NAME))
         if k in (5, 6):
             s, n = r.randrange(65536), (r.randrange(2) if k == 5 else r.randrange(65536))
@@ -828,13 +831,13 @@ def run(ctx):
         ctx.oblige('tcp-compaction-generator-reaches-expected-classes', not tmiss, f'missing={tmiss}')
     n_conn = 0
     if not ctx.replay:
-        n_conn, conn_classes = connections_family(ctx, 300 if quick else 6000)
+        n_conn, conn_classes = connections_family(ctx, 200 if quick else 6000)
         classes.update(conn_classes)
         cmiss = [x for x in ('conn-exchange:torn', 'conn-exchange:torn-header', 'conn-exchange:full+torn', 'conn-exchange:genuine', 'conn-exchange:stale+genuine') if classes.get(x, 0) < 3]
         ctx.oblige('connections-generator-reaches-expected-classes', not cmiss, f'missing={cmiss}')
     n_rtu = 0
     if not ctx.replay:
-        n_rtu, rtu_classes = rtu_stream_family(ctx, 700 if quick else 12000)
+        n_rtu, rtu_classes = rtu_stream_family(ctx, 450 if quick else 12000)
         classes.update(rtu_classes)
         need_rtu = ['rtu-stream:' + x for x in ('genuine', 'mutated', 'exception', 'other-unit', 'crc-damaged', 'bit-flip', 'truncated', 'unknown-fc',
                                                 'too-long-count', 'nothing')] + \
